@@ -304,15 +304,44 @@ def translate(repo):
     _raw_overloads(sb, "StreamBuffer", "StreamBuffer")
     _raw_overloads(fb, "File", "File")
     _raw_overloads(sk, "Socket", "Socket")
-    if not re.search(r"void\s+write\(const\s+void\*\s*data,\s*int\s+n\)\s*\{\s*append\(\(const\s+byte\*\)data,\s*n\);\s*\}", sb):
+    def _nexpr(text, what):
+        # an expression over the parameter `n` (natural numbers in the model: the protocol only passes n >= 0)
+        t = re.sub(r"\s+", "", text)
+        if not re.fullmatch(r"[n0-9+\-*()]+", t) or t[0] in "+-*" or "n" not in t:
+            raise TranslateError("%s: byte count `%s` not recognised" % (what, text.strip()))
+        return re.sub(r"([+\-*])", r" \1 ", t)
+    raw = {}
+    m = re.search(r"void\s+write\(const\s+void\*\s*data,\s*int\s+n\)\s*\{\s*append\(\(const\s+byte\*\)data,\s*(.*?)\);\s*\}", sb)
+    if not m:
         raise TranslateError("StreamBuffer::write not recognised")
-    if not re.search(r"ByteArray\s+read\(int\s+n\s*=\s*-1\)\s*\{\s*if\s*\(n\s*<\s*0\)\s*n\s*=\s*length\(\);\s*ByteArray\s+a\(n\);\s*memcpy\(a\.data\(\),\s*_ptr,\s*n\);\s*_ptr\s*\+=\s*n;\s*return\s+a;\s*\}", sbr):
+    raw["sbWriteCount"] = _nexpr(m.group(1), "StreamBuffer::write")
+    m = re.search(r"ByteArray\s+read\(int\s+n\s*=\s*-1\)\s*\{\s*if\s*\(n\s*<\s*0\)\s*n\s*=\s*length\(\);\s*ByteArray\s+a\((.*?)\);\s*memcpy\(a\.data\(\),\s*_ptr,\s*(.*?)\);\s*_ptr\s*\+=\s*(.*?);\s*return\s+a;\s*\}", sbr)
+    if not m:
         raise TranslateError("StreamBufferReader::read(int) not recognised")
-    if not re.search(r"StreamBufferReader&\s*skip\(int\s+n\)\s*\{\s*_ptr\s*\+=\s*n;\s*return\s+\*this;\s*\}", sbr):
+    if _nexpr(m.group(1), "StreamBufferReader::read(int)") != _nexpr(m.group(2), "StreamBufferReader::read(int)"):
+        raise TranslateError("StreamBufferReader::read(int): the array has `%s` bytes but `%s` are copied into it" % (m.group(1), m.group(2)))
+    raw["sbrReadCount"] = _nexpr(m.group(1), "StreamBufferReader::read(int)")
+    raw["sbrReadAdv"] = _nexpr(m.group(3), "StreamBufferReader::read(int)")
+    m = re.search(r"StreamBufferReader&\s*skip\(int\s+n\)\s*\{\s*_ptr\s*\+=\s*(.*?);\s*return\s+\*this;\s*\}", sbr)
+    if not m:
         raise TranslateError("StreamBufferReader::skip not recognised")
+    raw["sbrSkipAdv"] = _nexpr(m.group(1), "StreamBufferReader::skip")
+    fcpp = cparse.read(repo, "src/File.cpp").replace("\r", "")
+    m = re.search(r"int\s+File::read\(void\*\s*p,\s*int\s+n\)\s*\{\s*return\s+\(int\)fread\(p,\s*(\d+),\s*(.*?),\s*_file\);\s*\}", fcpp)
+    if not m:
+        raise TranslateError("File::read not recognised")
+    raw["fileReadCount"] = "%s * (%s)" % (m.group(1), _nexpr(m.group(2), "File::read"))
+    m = re.search(r"int\s+File::write\(const\s+void\*\s*p,\s*int\s+n\)\s*\{\s*return\s+\(int\)fwrite\(p,\s*(\d+),\s*(.*?),\s*_file\);\s*\}", fcpp)
+    if not m:
+        raise TranslateError("File::write not recognised")
+    raw["fileWriteCount"] = "%s * (%s)" % (m.group(1), _nexpr(m.group(2), "File::write"))
+    m = re.search(r"void\s+Socket_::skip\(int\s+n\)\s*\{\s*ByteArray\s+a\((.*?)\);\s*read\(a\.data\(\),\s*a\.length\(\)\);\s*\}", scpp)
+    if not m:
+        raise TranslateError("Socket_::skip not recognised (a read of n bytes that is thrown away expected)")
+    raw["sockSkipCount"] = _nexpr(m.group(1), "Socket_::skip")
 
     L = []
-    L.append("/- GENERATED by tools/props/c16.py from include/asl/{defs,StreamBuffer,File,Socket}.h, src/Socket.cpp and a compiler probe — do not edit -/")
+    L.append("/- GENERATED by tools/props/c16.py from include/asl/{defs,StreamBuffer,File,Socket}.h, src/{Socket,File}.cpp and a compiler probe — do not edit -/")
     L.append("namespace Gen.Stream\n")
     L.append("/-- `enum Endian { ENDIAN_BIG, ENDIAN_LITTLE, ENDIAN_NATIVE }` (include/asl/defs.h) -/")
     L.append("inductive Endian where\n  | big | little | native\nderiving DecidableEq, Repr\n")
@@ -444,6 +473,12 @@ def translate(repo):
     if len(ds) < 2 or len(set(ds)) != 1 or ds[0] not in ENDIANS:
         raise TranslateError("Socket_ constructors: default byte order not uniform: %r" % ds)
     L.append("def sockDefault : Endian := .%s\n" % ENDIANS[ds[0]])
+    L.append("/-! raw bytes: the count handed on by `StreamBuffer::write(data, n)` (`append(data, COUNT)`), the length/copy count and the `_ptr` advance of "
+             "`StreamBufferReader::read(n)`, the advance of `StreamBufferReader::skip(n)`, size*count of the `fread`/`fwrite` in `File::read/write(p, n)`, "
+             "the length of the read `Socket_::skip(n)` throws away -/")
+    for nm in ("sbWriteCount", "sbrReadCount", "sbrReadAdv", "sbrSkipAdv", "fileReadCount", "fileWriteCount", "sockSkipCount"):
+        L.append("def %s (n : Nat) : Nat := %s" % (nm, raw[nm]))
+    L.append("")
     L.append("end Gen.Stream\n")
     return {"Gen/StreamGen.lean": "\n".join(L)}
 
